@@ -146,6 +146,14 @@ export function pool(script, args, indices, workers, onResult, onStall = null, s
           return;
         }
         onResult(m.index, m.result);
+        if (m.recycle && next < indices.length && stalls < 6) {
+          // the worker asks to be replaced (it keeps module instances alive that cannot be freed)
+          done = true;
+          busy = null;
+          child.send({ done: true });
+          spawn();
+          return;
+        }
         feed();
       });
       child.on("exit", (code) => {
